@@ -6,6 +6,21 @@ ROOT = os.path.dirname(os.path.dirname(os.path.abspath(__file__)))
 
 # id -> (level category, technique, level text, level note, design ref)
 CHECKS = {
+    "C10": ("exploration",
+            "property-based round-trip testing (proptest) of the SCM_RIGHTS listener hand-off codec with fd-identity and fd-leak oracles",
+            "Generated listener sets (0..200 entries, four kinds, IPv4/IPv6 addresses of every textual length, real bound sockets and dups, blocking and non-blocking) are sent with send_listeners over a UnixStream pair and received with receive_listeners: same lists, same order, every received descriptor is the same open file (fstat) bound to its address; sets above the limit give a clean error; a single-threaded sub-check counts process descriptors before/after. The hand-over under traffic (soft stop, successor worker) is the wire-lab part and is not built yet.",
+            "Only the fd hand-off codec is covered so far; master-side fork/exec orchestration and the soft-stop behaviour under traffic are not exercised.",
+            "DESIGN.md §4 C10 (a)"),
+    "C18": ("exploration",
+            "property-based testing (proptest): PROXY-v2 codec round trip against an independent byte-level reading of the specification; ExpectProxyProtocol driven over an in-memory socket at generated split points",
+            "Encoder output is read back by a hand-written specification reader and by the parser; arbitrary/near-miss byte strings must be accepted only when they hold a complete v2 header, consuming exactly 16 + declared length; ExpectProxyProtocol<FakeSocket> receives hand-built headers (all families, LOCAL/PROXY, TLV tails, malformed flavours) plus payload in generated read sizes with would-blocks and must upgrade exactly when the header is complete, with its addresses, and close on malformed input. The byte-exact relay and header uniqueness toward the backend are wire-lab checks, not built yet.",
+            "In-process tiers only: the TCP pipe, half-close ordering and send/relay modes are not exercised yet.",
+            "DESIGN.md §4 C18 (a,b)"),
+    "C20": ("exploration",
+            "property-based testing (proptest): abstract configuration -> own TOML printer -> real loader -> fresh ConfigState, compared with expectations computed from the abstract configuration; constraint-violating neighbours must be rejected",
+            "Generated abstract configurations (listeners of four protocols, http/tcp clusters, frontends with every path kind/position/method/tags/certificates, backends, sizes crossing 255/256/512 messages) are printed to TOML, loaded by Config::load_from_path, turned into messages and dispatched on a fresh instance: every message accepted, ids unique, objects equal the declared ones with documented defaults, reload idempotent with empty diff; seven kinds of invalid neighbour must be rejected at load time. Bounded exploration.",
+            "Expected objects come from the harness's own reading of doc/configure.md and the proto defaults; where they disagree (absent frontend position: proto says TREE, loader applies PRE) both are admitted and the case is counted. The master's load_static_config scatter to workers is not run.",
+            "DESIGN.md §4 C20"),
     "C05": ("exploration",
             "property-based round-trip testing (proptest): generated command histories -> ConfigState -> every save/replay encoding -> projection equality",
             "Generated command histories (every mutating verb, valid/invalid arguments, colliding pools) build a reachable ConfigState which is replayed through the in-memory bootstrap requests, the protobuf InitialState blob, the \\n\\0-separated JSON state file (a fraction through real files), the JSON upgrade payload and a within-verb permutation; each replay must be accepted in full and reproduce the projection. Bounded exploration.",
